@@ -37,7 +37,8 @@ HOST, PORT = "pool.test", 80
 def parse_op(op: str):
     """'r1O' -> ('r', 1, 'O'); 'l' -> ('l',); 'c' -> ('c',).  Last letter of a request: O = keep-alive reply,
     F = the last attempt fails, C = the reply carries `Connection: close` (the connection object goes back to
-    the pool with its socket closed)."""
+    the pool with its socket closed), D = keep-alive reply after which the peer closes the idle connection (pooled
+    with the client's socket open, found dropped at its next checkout)."""
     if op in ("l", "c"):
         return (op,)
     return (op[0], int(op[1:-1]), op[-1])
@@ -92,6 +93,10 @@ class Run:
             peer.close()
             return
         peer.reply(http_response(200, [("X-Tag", tag)], body))
+        if last == "D":
+            # keep-alive reply, then the PEER closes the idle connection: the client pools it with its socket
+            # open; the next checkout finds it dropped (`is_connection_dropped`) and closes it before reconnecting
+            peer.close()
 
     def on_connect(self, sock, host, port):
         self.maxopen = max(self.maxopen, len(self.net.open_sockets()))
@@ -272,8 +277,9 @@ def build_classes():
 # ------------------------------------------------------------------------------------- generation
 
 REQ_KINDS = [["r0O"], ["r1O"], ["r0F"], ["s0O", "l"], ["s1O", "l"], ["r1F"], ["s0O", "l", "l"]]
-# replies with `Connection: close`: the connection object is pooled with its socket closed
-CLOSE_KINDS = [["r0C"], ["s0C", "l"], ["r1C"]]
+# replies with `Connection: close`: the connection object is pooled with its socket closed;
+# `…D`: keep-alive reply, then the peer closes the idle connection (pooled open, dropped at its next checkout)
+CLOSE_KINDS = [["r0C"], ["s0C", "l"], ["r1C"], ["r0D"], ["s0D", "l"]]
 
 
 def lease_discipline(prog):
@@ -293,9 +299,9 @@ def lease_discipline(prog):
 
 
 def thread_progs(nreq):
-    """all thread programs with exactly nreq requests over REQ_KINDS[:5] + CLOSE_KINDS[:2]"""
+    """all thread programs with exactly nreq requests over REQ_KINDS[:5] + r0C, s0C+l, r0D"""
     out = []
-    for combo in itertools.product(REQ_KINDS[:5] + CLOSE_KINDS[:2], repeat=nreq):
+    for combo in itertools.product(REQ_KINDS[:5] + CLOSE_KINDS[:2] + CLOSE_KINDS[3:4], repeat=nreq):
         out.append([op for part in combo for op in part])
     return out
 
@@ -395,6 +401,9 @@ class C02(Prop):
         extras += [[["r0C", "r0O"], ["r0O", "r0O"]], [["r0C"], ["r0O"], ["r0O"]],
                    [["s0C", "l", "r0O"], ["r0O", "r0O"]], [["r0C", "r0C"], ["r0C", "r0O"]],
                    [["r1C"], ["r0O", "r0O"]], [["r0C", "r0O"], ["s0O", "l"], ["c"]]]
+        # the same with a connection whose PEER closed it while idle (pooled open, found dropped at checkout)
+        extras += [[["r0D", "r0O"], ["r0O", "r0O"]], [["s0D", "l", "r0O"], ["r0O", "r0O"]],
+                   [["r0D"], ["r0C"], ["r0O"]], [["r0D", "r0O"], ["s0D", "l"], ["c"]]]
         for p in extras:
             confs.append((p, "extra"))
         for progs, shape in confs:
@@ -444,7 +453,7 @@ class C02(Prop):
                 elif res == "wrong":
                     pass                            # already recorded
                 elif p[0] in "rs":
-                    ok = ((res == "ok" and p[2] in "OC") or (res == "failed" and p[2] == "F")
+                    ok = ((res == "ok" and p[2] in "OCD") or (res == "failed" and p[2] == "F")
                           or (res == "closed" and has_closer) or (res == "empty" and r.block and r.timeout))
                     if res == "empty" and ok and disciplined and requesters <= r.maxsize:
                         # every thread holds at most one slot at a time and there are no more requesting
